@@ -2,6 +2,7 @@ import XvcPipeline.Progress
 import XvcPipeline.Relay
 import XvcPipeline.Demo
 import XvcPipeline.LockOrder
+import XvcPipeline.PmpLock
 import XvcPipeline.Gen.FailurePath
 import XvcPipeline.PubBound
 /-!
@@ -275,6 +276,82 @@ example (h l : Lock) (he : (h, l) ∈ lockEdges) : ∀ (t : Bool) (l' h' : Lock)
 example (l : Lock) : WaitChain (fun (_ : Unit) (x : Lock) => x = l) (fun (_ : Unit) (x : Lock) => x = l) () () :=
   .single ⟨l, rfl, rfl⟩
 
+/-! ## No step thread blocks itself inside the path metadata provider
+
+Every dependency comparison looks its path up in the ONE `XvcPathMetadataProvider` of the run (core/src/util/pmp.rs); the map
+is behind a std `RwLock` that all step threads and the file-system watcher thread share, and results are cached per path: the
+second lookup of a path — by the same or by another step — takes a different branch from the first.  The scheduler model
+treats a lookup as one atomic step that returns.  `Gen.pmpAcquisitions` (lib/lock_extract.py, regenerated on every run) lists
+every acquisition event in the provider with the guards of the same thread alive at that point. -/
+
+/-- over the REGENERATED table: no function of the provider acquires — in any mode, directly or through a call
+    (`update_metadata`, the watcher's inserts) — a lock of which the same thread still holds a guard, and the nesting edges of
+    the table have no cycle.  A `get` that calls `update_metadata` inside `if let Some(md) = self.path_map.read().unwrap().get(..)`
+    adds the entry `held := [(path_map, shared)]`, `lock := path_map`, `mode := exclusive` and breaks this `decide`. -/
+theorem C11_pmp_no_self_deadlock :
+    pmpNoReacquire pmpAcquisitions = true ∧ (allPLocks.all fun l => !pReach l l) = true := by decide
+
+/-- the closure is transitive and contains the nesting edges -/
+theorem C11_pmp_order_strict :
+    (allPLocks.all fun a => allPLocks.all fun b => allPLocks.all fun c => !(pReach a b && pReach b c) || pReach a c) = true ∧
+    (pmpEdges.all fun e => pReach e.1 e.2) = true := by decide
+
+/-- the general lemma (any lock type, any number of threads, any moment): a thread whose program of acquire/release operations
+    never acquires a lock of which it holds a guard does not, at any point, wait for a lock it holds itself -/
+theorem C11_no_reacquisition_no_self_wait {T L : Type} [DecidableEq L] (prog : T → List (GOp L)) (pc : T → Nat) (t : T)
+    (h : NoReacquire (prog t) []) : ¬ WaitsFor (holdsAt prog pc) (waitsAt prog pc) t t := no_self_wait prog pc t h
+
+/-- hence: ANY set of threads (step threads, the watcher thread) whose waiting points are acquisition events of the extracted
+    table — the thread waits for the lock of the entry and holds at most the guards the entry lists — never contains a
+    thread that waits, directly or through others, for itself: no deadlock inside the provider, a lookup returns -/
+theorem C11_pmp_no_lock_deadlock {T : Type} (holds waits : T → PLock → Prop)
+    (respects : ∀ t l, waits t l → ∃ a ∈ pmpAcquisitions, a.lock = l ∧ ∀ h, holds t h → h ∈ a.held.map (·.1)) (t : T) :
+    ¬ WaitChain holds waits t t := by
+  have ho := C11_pmp_no_self_deadlock.2
+  have hs := C11_pmp_order_strict
+  simp only [List.all_eq_true] at ho hs
+  apply no_wait_cycle (lt := fun a b => pReach a b = true)
+  · intro a h
+    have := ho a (mem_allPLocks a)
+    simp [h] at this
+  · intro a b c hab hbc
+    have := hs.1 a (mem_allPLocks a) b (mem_allPLocks b) c (mem_allPLocks c)
+    simpa [hab, hbc] using this
+  · intro t l h hw hh
+    obtain ⟨a, ha, rfl, hheld⟩ := respects t l hw
+    exact hs.2 (h, a.lock) (mem_pmpEdges ha (hheld h hh))
+
+/-- non-vacuity: the table is not empty, contains exclusive acquisitions reached through a call (`get` → `update_metadata`) and
+    the watcher's inserts, and the hypothesis of `C11_pmp_no_lock_deadlock` is satisfiable by a thread that waits for
+    `path_map` while another one holds it -/
+example : (pmpAcquisitions.any fun a => a.fn == "get" && a.mode == .exclusive) = true ∧
+    (pmpAcquisitions.any fun a => a.fn == "new::{closure handle_fs_event}" && a.mode == .exclusive) = true ∧
+    (pmpAcquisitions.any fun a => a.fn == "get" && a.mode == .shared) = true := by decide
+
+example : ∀ (t : Bool) (l : PLock), (t = true ∧ l = .path_map) →
+    ∃ a ∈ pmpAcquisitions, a.lock = l ∧ ∀ h, (t = false ∧ h = PLock.path_map) → h ∈ a.held.map (·.1) := by
+  rintro t l ⟨rfl, rfl⟩
+  have h : (pmpAcquisitions.any fun a => a.lock == .path_map) = true := by decide
+  obtain ⟨a, ha, hl⟩ := List.any_eq_true.1 h
+  exact ⟨a, ha, by simpa using hl, by rintro h ⟨ht, _⟩; cases ht⟩
+
+/-- the discipline on a program: `get` of the unchanged code (read guard dropped before `update_metadata` writes, then a read) -/
+example : NoReacquire (L := PLock)
+    [.acquire .path_map, .release .path_map, .acquire .path_map, .release .path_map, .acquire .path_map, .release .path_map] [] := by
+  simp [NoReacquire]
+
+/-- THE RE-ACQUISITION (seed C11-5), on the model: a `get` that still holds the read guard of `path_map` when it calls
+    `update_metadata` (i) is rejected by the table check, (ii) is a thread that waits for a lock it holds itself — a wait-for
+    cycle of length one — and (iii) is refused by the RwLock for ever, whatever the other threads do -/
+theorem C11_pmp_reacquisition_counterexample :
+    pmpNoReacquire [{ fn := "get", line := 0, lock := .path_map, mode := .exclusive, held := [(.path_map, .shared)] }] = false ∧
+    WaitChain (holdsAt (fun (_ : Unit) => [GOp.acquire PLock.path_map, .acquire .path_map]) (fun _ => 1))
+              (waitsAt (fun (_ : Unit) => [GOp.acquire PLock.path_map, .acquire .path_map]) (fun _ => 1)) () () ∧
+    ∀ g' : List (Unit × PMode), OtherSteps () [((), PMode.shared)] g' → grantable .exclusive g' = false := by
+  refine ⟨by decide, .single ⟨.path_map, ⟨[], rfl⟩, by simp [holdsAt, heldAfter]⟩, ?_⟩
+  intro g' h
+  exact own_guard_blocks_forever (m := .shared) (by simp) h
+
 end Sched
 
 /-! ## Relaying the output never blocks the step -/
@@ -336,6 +413,11 @@ end Relay
 #print axioms Sched.C11_lock_order_strict
 #print axioms Sched.C11_lock_order_no_wait_cycle
 #print axioms Sched.C11_no_lock_deadlock
+#print axioms Sched.C11_pmp_no_self_deadlock
+#print axioms Sched.C11_pmp_order_strict
+#print axioms Sched.C11_no_reacquisition_no_self_wait
+#print axioms Sched.C11_pmp_no_lock_deadlock
+#print axioms Sched.C11_pmp_reacquisition_counterexample
 #print axioms Relay.C11_relay_no_block
 #print axioms Relay.C11_relay_terminates
 #print axioms Relay.C11_relay_sequential_partial
